@@ -9,8 +9,14 @@ def payloads(r):
     out = []
     for ln in [0, 1, 5, 40, 49, 50, 51, 75, 76, 80, 200, 247, 248, 249, 250, 251, 252, 253, 255, 256, 300, 1000, 3000]:
         for form in ['direct', 'pd1', 'pd2', 'pd4']:
-            for kind in ['ascii', 'utf8', 'bad', 'nl', 'special']:
+            for kind in ['ascii', 'utf8', 'bad', 'nl', 'special', 'pad']:
                 if kind == 'ascii': d = bytes(r.randrange(32, 127) for _ in range(ln))
+                elif kind == 'pad':
+                    # fixed-width payloads filled up with NUL / blank / tab bytes at the end or the start, and payloads made of nothing else: printed exactly, none dropped
+                    if ln == 0 or ln > 300: continue
+                    padb = bytes([r.choice([0, 0, 0x20, 0x09])]); npad = r.choice([1, 2, ln // 2, ln])
+                    body = bytes(r.randrange(33, 127) for _ in range(ln - min(npad, ln)))
+                    d = (body + padb * ln)[:ln] if r.random() < 0.7 else (padb * min(npad, ln) + body)[:ln]
                 elif kind == 'special':
                     # valid UTF-8 made of code points a decoder may treat specially: U+FFFD itself, BOM, noncharacters, NUL, the ends of the scalar ranges
                     cps = [0xFFFD, 0xFEFF, 0xFFFE, 0xFFFF, 0, 0x7f, 0x80, 0x7ff, 0x800, 0xd7ff, 0xe000, 0x10000, 0x10ffff, 0x1b, 0x0d]
@@ -30,7 +36,7 @@ def payloads(r):
 def explore(ck):
     r = ck.rng; quick = ck.tier == 'quick'
     ck.rule = ('opreturn runs on chains whose outputs carry OP_RETURN <one push> for every push form (direct, PUSHDATA1/2/4, minimal and non-minimal) x payload length 0..3000 x {ASCII, multi-byte UTF-8, '
-               'invalid UTF-8, embedded newlines and look-alike lines, valid text made of U+FFFD / BOM / noncharacters / NUL / range ends}, several OP_RETURN outputs per transaction, OP_RETURN outputs that are not a single push, mixed with every other script type, '
+               'invalid UTF-8, embedded newlines and look-alike lines, valid text made of U+FFFD / BOM / noncharacters / NUL / range ends, text padded with (or made of nothing but) NUL, blank or tab bytes}, several OP_RETURN outputs per transaction, OP_RETURN outputs that are not a single push, mixed with every other script type, '
                'x bitcoin/testnet3/fork coins x ranges x verbosity (default and -vv), runs printing more than 128 KiB of lines, and runs that fail inside the last block (the lines of the blocks before it must have been printed); the printed lines (height, txid, payload bytes) are compared with the model and with the property evaluated by the python reference '
                '(printed iff single push, non-empty and - on bitcoin/testnet3 - valid UTF-8; fork coins print the lossy text). Non-trivial: >= 1 printed and >= 1 suppressed OP_RETURN output in the '
                'same run; distinct by case.')
